@@ -5,17 +5,19 @@ in-memory sqlite3 table through a recording connection wrapper; the returned row
 Python evaluator of SQL three-valued logic (models/sql3vl.py) and the recorded (sql, params) with the
 operands of the tree.
 
-Table t(id, s TEXT, n INT, _d INT): 15 rows covering NULL, '', quotes, wildcard characters, an SQL
+Table t(id, s TEXT, n INT, _d INT, f REAL): 16 rows covering NULL, '', quotes, wildcard characters, an SQL
 fragment, text that spells an operator ("IS NULL", "is not null", "NULL", "= 1", "IN (1)"), case variants and
 small ints (ROWS below); the same strings are operand values in every spelling (3-tuple, 2-tuple, keyword, _or); "_d" is a column whose name starts with an underscore
 like the special keywords _order_by / _as_scalars; columns are also addressed as "t.s", "t.n".
 
 Families (all members visited):
-  single  : every atom (column, operator, operand) of the full alphabet (164 atoms: 12 operators, NULL,
+  single  : every atom (column, operator, operand) of the full alphabet (168 atoms: 12 operators, NULL,
             '', quote, wildcard, fragment, [], [v], (v, w), {v, w}, [v, None], [None] ...)
             x spelling {3-tuple, list, condition object, 2-tuple, keyword}
             x method {list, all, one, one_or_none, SqlMethodT.list/one/one_or_none}
-            x order {none, id, id DESC via _order_by, id / id DESC via constructor} x placeholder style {?, %s}
+            x order {none, id, id DESC via _order_by, id / id DESC via constructor} x placeholder style {?, %s};
+            and x result method {list, all, one, one_or_none} x {records, _as_scalars=True on the call,
+            as_scalars=True on the method} x first selected column {id, s, n, f} (row 0 holds 0, '', 0, 0.0)
   pairs   : every ordered pair of atoms as  a AND b  and as  _or(a, b)            x placeholder style
   deco    : every sequence of <= 2 top-level items over the item alphabet built from 16 representative
             atoms: 3-tuples, 2-tuples, list/object/lower-case spellings, _or() of 0, 1, 2 operands,
@@ -39,11 +41,11 @@ ID = "C15"
 TITLE = "SQL filters select exactly the intended rows; values are always bound"
 TECHNIQUE = "bounded exhaustive enumeration of filter trees on real sqlite3 against a three-valued-logic evaluator"
 DESIGN_REF = "§2 C15"
-LEVEL_TEXT = ("Every filter tree with at most 2 (quick) / 3 (thorough) leaves over a 164-atom alphabet, and every "
+LEVEL_TEXT = ("Every filter tree with at most 2 (quick) / 3 (thorough) leaves over a 168-atom alphabet, and every "
               "decorated tree (OR groups, keywords, ignored None, static conditions, spellings, methods, orders, "
               "both placeholder styles) over 16 representative atoms, is executed by the real SqlMethod on a real "
               "sqlite3 table; rows are compared with an independent 3VL evaluator, parameters with the operands.")
-LEVEL_NOTE = ("Small scope: one fixed 15-row table, trees of more than 3 leaves and OR groups of more than 3 "
+LEVEL_NOTE = ("Small scope: one fixed 16-row table, trees of more than 3 leaves and OR groups of more than 3 "
               "operands are not explored; GROUP BY and joins are not. The '%s' placeholder style is exercised "
               "through a wrapper that translates it for sqlite. Trusted: sqlite3 itself (3.40), models/sql3vl.py.")
 RULE = ("case = one call of one method with one argument list (tree, spelling, keywords, order, placeholder "
@@ -64,7 +66,10 @@ REQUIRED_FEATURES = [
     "val:singleton-list", "val:tuple", "val:set", "val:list-with-null", "val:operator-text",
     "form:3-tuple", "form:2-tuple", "form:list", "form:object", "form:keyword", "form:or-empty", "form:or-1",
     "form:or-2", "form:or-keyword", "form:none-arg", "form:static", "form:lower-case-op",
-    "form:keyword-underscore-column", "col:qualified", "col:underscore", "method:list+scalars", "seq:two-calls",
+    "form:keyword-underscore-column", "col:qualified", "col:underscore", "seq:two-calls",
+    "select:id", "select:s", "select:n", "select:f", "scalars:-", "scalars:call", "scalars:ctor",
+    "scalars:falsy-single-row:list", "scalars:falsy-single-row:all", "scalars:falsy-single-row:one",
+    "scalars:falsy-single-row:one_or_none",
     "method:list", "method:all", "method:one", "method:one_or_none", "method:T.list", "method:T.one",
     "method:T.one_or_none", "order:-", "order:id", "order:id DESC", "via:ctor",
     "conn:q", "conn:p", "3vl:unknown-row", "result:empty", "result:several", "result:one",
@@ -72,28 +77,33 @@ REQUIRED_FEATURES = [
 ]
 
 # ------------------------------------------------------------------------------------------ the table
-ROWS = [            # (id, s, n, _d)
-    (1, None, None, 0),
-    (2, "", 2, 1),
-    (3, "o'k", 1, None),
-    (4, "50%", 0, 0),
-    (5, "a_b", -1, 1),
-    (6, "A_B", None, None),
-    (7, "x; DROP TABLE t", 1, 0),
-    (8, "axb", 8, 0),
-    (9, "500", 0, 1),
-    (10, None, 7, None),
+ROWS = [            # (id, s, n, _d, f); position in this list == id
+    (0, "", 0, 0, 0.0),             # every selectable first column of this row is falsy: 0, '', 0, 0.0
+    (1, None, None, 0, 1.5),
+    (2, "Zz", 2, 1, None),
+    (3, "o'k", 1, None, 2.0),
+    (4, "50%", 0, 0, 4.5),
+    (5, "a_b", -1, 1, 5.5),
+    (6, "A_B", None, None, 6.5),
+    (7, "x; DROP TABLE t", 1, 0, 7.5),
+    (8, "axb", 8, 0, 8.5),
+    (9, "500", 0, 1, 9.5),
+    (10, None, 7, None, 10.5),
     # text that looks like SQL for an operator: it is data like any other string
-    (11, "IS NULL", 1, 0),
-    (12, "is not null", None, 1),
-    (13, "NULL", 2, None),
-    (14, "= 1", 0, 0),
-    (15, "IN (1)", 7, 1),
+    (11, "IS NULL", 1, 0, 11.5),
+    (12, "is not null", None, 1, 12.5),
+    (13, "NULL", 2, None, 13.5),
+    (14, "= 1", 0, 0, 14.5),
+    (15, "IN (1)", 7, 1, 15.5),
 ]
+assert all(r[0] == k for k, r in enumerate(ROWS))
 NROWS = len(ROWS)
 FULL = (1 << NROWS) - 1
 COLIDX = {"id": 0, "s": 1, "n": 2, "_d": 3, "t.s": 1, "t.n": 2, "t._d": 3}
 SELECT = "SELECT id, s, n FROM t"
+# statements by first selected column (the column returned in scalar mode) and the projection of a table row
+SELECTS = {"id": SELECT, "s": "SELECT s, id, n FROM t", "n": "SELECT n, id, s FROM t", "f": "SELECT f, id, s FROM t"}
+PROJ = {"id": (0, 1, 2), "s": (1, 0, 2), "n": (2, 0, 1), "f": (4, 0, 1)}
 STATICS = [("id = n", lambda r: L.eq3(r[0], r[2])),
            ("s IS NOT NULL", lambda r: r[1] is not None)]
 
@@ -147,6 +157,8 @@ def _atom_specs():
         for op in ("<", ">", "<=", ">="):
             for v in cmpv:
                 out.append((col, op, ["v", v]))
+    # the key column: filters that select exactly the row whose columns are all falsy (id 0)
+    out += [("id", "=", ["v", 0]), ("id", "<", ["v", 1]), ("id", "IN", ["s", [0, 99]]), ("id", "!=", ["v", 0])]
     return out
 
 
@@ -275,8 +287,8 @@ def _db():
     if _DB is None:
         _DB = sqlite3.connect(":memory:")
         cur = _DB.cursor()
-        cur.execute("CREATE TABLE t (id INTEGER PRIMARY KEY, s TEXT, n INT, _d INT)")
-        cur.executemany("INSERT INTO t (id, s, n, _d) VALUES (?, ?, ?, ?)", ROWS)
+        cur.execute("CREATE TABLE t (id INTEGER PRIMARY KEY, s TEXT, n INT, _d INT, f REAL)")
+        cur.executemany("INSERT INTO t (id, s, n, _d, f) VALUES (?, ?, ?, ?, ?)", ROWS)
         _DB.commit()
     return _DB
 
@@ -321,16 +333,16 @@ class _PConn(_QConn):
 _PConn.__module__ = "mysql.connector.fake"
 
 
-def _method(kind, ctor_order):
-    key = (kind, ctor_order)
+def _method(kind, ctor_order, select="id", ctor_scalars=False):
+    key = (kind, ctor_order, select, ctor_scalars)
     m = _METHODS.get(key)
     if m is None:
         from ak.mtd_sql import SqlMethod
         from ak.mcaller_sql import SqlMethodT
         if kind == "T":
-            m = SqlMethodT(SELECT, order_by=ctor_order, record_name="rec")
+            m = SqlMethodT(SELECTS[select], order_by=ctor_order, record_name="rec")
         else:
-            m = SqlMethod(SELECT, order_by=ctor_order, record_name="rec")
+            m = SqlMethod(SELECTS[select], order_by=ctor_order, record_name="rec", as_scalars=ctor_scalars)
         _METHODS[key] = m
     return m
 
@@ -395,13 +407,18 @@ def build_item(item):
     raise ValueError(item)
 
 
-def _expected_result(method, exp_ids, order):
-    rows = [ROWS[i - 1][:3] for i in exp_ids]
+def _expected_result(method, exp_ids, order, select="id", scalars="-"):
+    if scalars == "-":
+        rows = [tuple(ROWS[i][k] for k in PROJ[select]) for i in exp_ids]
+    else:
+        rows = [ROWS[i][PROJ[select][0]] for i in exp_ids]        # scalar mode: the first selected column
     if order == "id DESC":
         rows = rows[::-1]
-    if method in ("list", "all", "T.list", "list+scalars"):
+    if method in ("list", "all", "T.list"):
         return ("rows", rows)
-    if method in ("one", "one+scalars"):
+    if scalars != "-" and method in ("one", "one_or_none") and len(rows) == 1 and rows[0] is None:
+        return ("any",)          # a NULL scalar cannot be told from "no record": outside the property
+    if method == "one":
         return ("row", rows[0]) if len(rows) == 1 else ("ValueError",)
     if method == "one_or_none":
         return ("none",) if not rows else (("row", rows[0]) if len(rows) == 1 else ("ValueError",))
@@ -412,31 +429,24 @@ def _expected_result(method, exp_ids, order):
     raise ValueError(method)
 
 
-def _call(method, conn, args, kwargs, ctor_order):
+def _call(method, conn, args, kwargs, ctor_order, select="id", scalars="-"):
+    rec = tuple if scalars == "-" else (lambda x: x)
     try:
         if method.startswith("T."):
-            m = _method("T", ctor_order)
+            m = _method("T", ctor_order, select)
             tbl = getattr(m, method[2:])(conn, *args, **kwargs)
             if tbl is None:                       # "single record or None" (docstring of one_or_none)
                 return ("rows", [])
             return ("rows", [tuple(r) for r in tbl.records])
-        m = _method("S", ctor_order)
-        if method.endswith("+scalars"):
-            # _as_scalars=True: first elements (ids) instead of records; mapped back to rows for the comparison
+        m = _method("S", ctor_order, select, scalars == "ctor")
+        if scalars == "call":
             kwargs = dict(kwargs, _as_scalars=True)
-            if method == "list+scalars":
-                ids = m.list(conn, *args, **kwargs)
-            else:
-                ids = [m.one(conn, *args, **kwargs)]
-            if not all(isinstance(i, int) and 1 <= i <= NROWS for i in ids):
-                return ("raise", "not-scalars", repr(ids)[:120])
-            return ("rows", [ROWS[i - 1][:3] for i in ids]) if method == "list+scalars" else ("row", ROWS[ids[0] - 1][:3])
         if method == "list":
-            return ("rows", [tuple(r) for r in m.list(conn, *args, **kwargs)])
+            return ("rows", [rec(r) for r in m.list(conn, *args, **kwargs)])
         if method == "all":
-            return ("rows", [tuple(r) for r in m.all(conn, *args, **kwargs)])
+            return ("rows", [rec(r) for r in m.all(conn, *args, **kwargs)])
         r = getattr(m, method)(conn, *args, **kwargs)
-        return ("none",) if r is None else ("row", tuple(r))
+        return ("none",) if r is None else ("row", rec(r))
     except ValueError as e:
         return ("ValueError", str(e)[:120])
     except Exception as e:  # noqa
@@ -447,10 +457,14 @@ def _pkey(v):
     return (type(v).__name__, repr(v))
 
 
-def run_built(args, kwargs, masks_list, bound, strs, method, order, via, conn_kind, acc):
+def _same_multiset(a, b):
+    return len(a) == len(b) and sorted(map(_pkey, a)) == sorted(map(_pkey, b))
+
+
+def run_built(args, kwargs, masks_list, bound, strs, method, order, via, conn_kind, acc, select="id", scalars="-"):
     """Execute one call on the real code and judge it. -> (outcome label, violation or None, unknown?)."""
     t, f = L.and_masks(masks_list, FULL)
-    exp_ids = [i + 1 for i in range(NROWS) if t >> i & 1]
+    exp_ids = [i for i in range(NROWS) if t >> i & 1]
     unknown = (t | f) != FULL
     log = []
     conn = _QConn(log) if conn_kind == "q" else _PConn(log)
@@ -462,31 +476,34 @@ def run_built(args, kwargs, masks_list, bound, strs, method, order, via, conn_ki
         else:
             kw["_order_by"] = order
     acc.trans()
-    got = _call(method, conn, args, kw, ctor_order)
-    exp = _expected_result(method, exp_ids, order)
+    got = _call(method, conn, args, kw, ctor_order, select, scalars)
+    exp = _expected_result(method, exp_ids, order, select, scalars)
     label = f"{exp[0]}:{len(exp_ids)}"
+    mode = method + ("" if scalars == "-" else " in scalar mode")
     # ---- result
     if got[0] == "raise":
-        return label, ("statement-fails", f"{method} raised {got[1]}: {got[2]}", list(got), list(exp)), unknown
+        return label, ("statement-fails", f"{mode} raised {got[1]}: {got[2]}", list(got), list(exp)), unknown
     g, e = got, exp
-    if e[0] == "ValueError":
+    if e[0] == "any":
+        pass
+    elif e[0] == "ValueError":
         if g[0] != "ValueError":
-            return label, ("wrong-rows", f"{method} should raise ValueError ({len(exp_ids)} rows selected)",
+            return label, ("wrong-rows", f"{mode} should raise ValueError ({len(exp_ids)} rows selected)",
                            list(g), list(e)), unknown
     else:
         if g[0] == "ValueError":
-            return label, ("wrong-rows", f"{method} raised ValueError: {g[1]}", list(g), list(e)), unknown
+            return label, ("wrong-rows", f"{mode} raised ValueError although the conditions select "
+                           f"{len(exp_ids)} row(s): {g[1]}", list(g), list(e)), unknown
         if e[0] == "rows" and order == "-" and g[0] == "rows":
-            if sorted(g[1]) != sorted(e[1]) or len(g[1]) != len(e[1]):
+            if not _same_multiset(g[1], e[1]):
                 return label, ("wrong-rows", "returned rows differ from the rows selected under 3VL",
-                               sorted(r[0] for r in g[1]), exp_ids), unknown
-        elif g != e:
-            if g[0] == "rows" and e[0] == "rows" and sorted(g[1]) == sorted(e[1]):
+                               g[1][:20], e[1][:20]), unknown
+        elif g != e or (g[0] == "rows" and list(map(_pkey, g[1])) != list(map(_pkey, e[1]))):
+            if g[0] == "rows" and e[0] == "rows" and _same_multiset(g[1], e[1]):
                 return label, ("wrong-order", f"rows not in the requested order '{order}'",
-                               [r[0] for r in g[1]], [r[0] for r in e[1]]), unknown
-            obs = [r[0] for r in g[1]] if g[0] == "rows" else list(g)
+                               g[1][:20], e[1][:20]), unknown
             return label, ("wrong-rows", "returned rows differ from the rows selected under 3VL",
-                           obs, [r[0] for r in e[1]] if e[0] == "rows" else list(e)), unknown
+                           g[1][:20] if g[0] == "rows" else list(g), e[1][:20] if e[0] == "rows" else list(e)), unknown
     # ---- binding
     if len(log) != 1:
         return label, ("statement-count", f"{len(log)} statements executed for one call", len(log), 1), unknown
@@ -531,12 +548,19 @@ def run_case(case, acc, count=True, classify=True):
         if c.startswith("_"):
             feats.append("form:keyword-underscore-column")
     strs = [x for x in bound if _text_checkable(x)]
+    select, scalars = case.get("select", "id"), case.get("scalars", "-")
     label, v, unknown = run_built(args, kwargs, masks_list, bound, strs, case["method"], case["order"],
-                                  case["via"], case["conn"], acc)
+                                  case["via"], case["conn"], acc, select, scalars)
     if count:
         feats += ["method:" + case["method"], "order:" + case["order"], "conn:" + case["conn"]]
         if case["via"] == "ctor":
             feats.append("via:ctor")
+        feats += ["select:" + select, "scalars:" + scalars]
+        if scalars != "-" and label.endswith(":1"):
+            t, _f = L.and_masks(masks_list, FULL)
+            val = ROWS[t.bit_length() - 1][PROJ[select][0]]
+            if val is not None and not val:
+                feats.append("scalars:falsy-single-row:" + case["method"])
         _count(acc, label, unknown, len(bound), feats, v)
         if v is None and unknown and len(bound) >= 2 and acc.evaluations % 53 == 0:
             acc.sample({"case": case, "expected": label})
@@ -593,6 +617,9 @@ def _report(acc, case, v, leaves):
                 blame = "spelling-" + form
             else:
                 blame = "method-" + case["method"]
+                if case.get("scalars", "-") != "-" and \
+                        run_case(dict(case, scalars="-"), core.Acc(), count=False, classify=False) is None:
+                    blame += ":scalar-mode"
         if blame is None and case["kw"]:
             sub = dict(case, kw={})
             if run_case(sub, core.Acc(), count=False, classify=False) is None:
@@ -649,7 +676,9 @@ def shards(tier):
     return out
 
 
-METHODS = ["list", "all", "one", "one_or_none", "T.list", "T.one", "T.one_or_none", "list+scalars", "one+scalars"]
+METHODS = ["list", "all", "one", "one_or_none", "T.list", "T.one", "T.one_or_none"]
+RESULT_METHODS = ["list", "all", "one", "one_or_none"]
+SCALAR_MODES = ["-", "call", "ctor"]         # records / _as_scalars=True on the call / as_scalars=True on the method
 ORDERS = [("-", "call"), ("id", "call"), ("id DESC", "call"), ("id", "ctor"), ("id DESC", "ctor")]
 
 
@@ -724,6 +753,22 @@ def run_shard(shard, tier, seed, acc):
                                 case = {"items": [a.item(form)], "kw": {}}
                             case.update({"order": order, "via": via, "method": method, "conn": conn})
                             run_case(case, acc)
+            # result method x records / scalar mode x first selected column (row 0 is falsy in every column)
+            for form in ["a3"] + (["kw"] if a.op == "=" else []):
+                for method in RESULT_METHODS:
+                    for scalars in SCALAR_MODES:
+                        for select in SELECTS:
+                            if scalars == "-" and select == "id":
+                                continue          # visited above
+                            for order in ("-", "id DESC"):
+                                for conn in ("q", "p"):
+                                    if form == "kw":
+                                        case = {"items": [], "kw": {a.col: a.spec}}
+                                    else:
+                                        case = {"items": [a.item(form)], "kw": {}}
+                                    case.update({"order": order, "via": "call", "method": method, "conn": conn,
+                                                 "select": select, "scalars": scalars})
+                                    run_case(case, acc)
             if acc.expired():
                 return
         return
@@ -891,7 +936,7 @@ def run_seq(case, acc, count=True):
 
 def _seq_block(acc, k, step):
     combos = [("list", "list"), ("one_or_none", "list"), ("one", "one_or_none"), ("T.list", "T.list"),
-              ("T.one", "T.list"), ("list+scalars", "list")]
+              ("T.one", "T.list"), ("all", "one")]
     for a in REPS[k::step]:
         for b in REPS:
             for m1, m2 in combos:
@@ -929,7 +974,7 @@ def selftest():
         else:
             sql, params = f"{a.col} {cop} ?", [v]
         got = [r[0] for r in db.execute(f"SELECT id FROM t WHERE {sql} ORDER BY id", params)]
-        exp = [i + 1 for i in range(NROWS) if a.masks[0] >> i & 1]
+        exp = [i for i in range(NROWS) if a.masks[0] >> i & 1]
         assert got == exp, (a.col, a.op, a.spec, got, exp)
     # tests/test_mtd_sql.py::test_complex_conditions, transcribed to the model
     rows = [(1, "James", 1), (2, "Arnold", 1), (3, "Chuck", 7), (4, "Harry", 7), (5, "Asimov", 7)]
